@@ -1017,6 +1017,12 @@ def compare_session(ctx, sess, impl_obs, enc, val):
             ctx.disagree('alias.parse', sess, None, repr(mobs)[:300], detail=f'cannot read model value: {ex}')
             return
         call = (['construct'] + list(sess['calls']))[ci]
+        if call == 'eval' and status != 'Ok' and mstat != 'Ok':
+            # a bare evaluation on trial data that is missing or only half initialised (an earlier initialize_trial
+            # raised): WHICH exception class the real evaluation chain raises (AttributeError on events None, TypeError
+            # on the missing source-event index table, ...) is not part of the property and not modelled; that it
+            # raises, and the state it leaves, are compared
+            status = mstat = 'raises'
         if mstat != status:
             ctx.disagree('alias.status:' + call, dict(sess, at=ci), status, mstat, detail='status differs')
             return
